@@ -68,10 +68,43 @@ NextSim ==
   \/ SSetSysPhases("ok")  \/ SSetSysPhases("rej")
   \/ SSetCompPhases("ok") \/ SSetCompPhases("rej")
 
+\* construction histories only: accepted additions and phase configuration (system generator)
+FreeNames == NameU \ (Names(sys) \cup Rails(sys))
+FreeRails == {""} \cup (RailU \ (Names(sys) \cup Rails(sys)))
+NonLoads  == {n \in Names(sys) : Kind(sys, n) # "LOAD"}
+BRef(n)   == IF sys.comps[n].rail # "" /\ step % 2 = 0 THEN sys.comps[n].rail ELSE n
+BAddSource ==
+  /\ Cardinality(Sources(sys)) < 3 /\ step % 3 = 1
+  /\ \E name \in Pick(1, FreeNames), rail \in Pick(1, FreeRails), group \in Pick(1, GroupU) :
+        X("ok", "add_source", [comp |-> C(name, "Source", 0), rail |-> rail, group |-> group])
+BAddComp ==
+  \E p \in Pick(1, NonLoads), name \in Pick(1, FreeNames), cls \in Pick(2, ClassU \ {"Source", "PMux"}),
+     rail \in Pick(1, FreeRails), group \in Pick(1, GroupU) :
+     X("ok", "add_comp", [refs |-> <<BRef(p)>>, aslist |-> FALSE, comp |-> C(name, cls, 0),
+                          rail |-> rail, group |-> group])
+BAddMux ==
+  /\ Muxes(sys) = {}
+  /\ \E k \in 1..MaxRefs, name \in Pick(1, FreeNames), rail \in Pick(1, FreeRails), group \in Pick(1, GroupU) :
+       \E ins \in Pick(2, {s \in SeqsUpTo(Pick(4, NonLoads), k) : Len(s) = k /\ NoDup(s)}) :
+          X("ok", "add_comp", [refs |-> [i \in DOMAIN ins |-> BRef(ins[i])], aslist |-> TRUE,
+                               comp |-> C(name, "PMux", 0), rail |-> rail, group |-> group])
+BPhases == step \in {0, 1, 2} /\ sys.sysph = <<>> /\ \E phases \in SysPhU : X("ok", "set_sys_phases", [phases |-> phases])
+BCompPhases ==
+  /\ sys.sysph # <<>>
+  /\ \E n \in Pick(1, {m \in Names(sys) : Kind(sys, m) # "SLOSS"}), conf \in Pick(1, ConfU) :
+        X("ok", "set_comp_phases", [ref |-> BRef(n), conf |-> conf])
+NextBuild ==
+  \/ BAddSource \/ BPhases \/ BPhases \/ BCompPhases
+  \/ BAddComp \/ BAddComp \/ BAddComp \/ BAddMux
+SpecBuild == (Init /\ step = 0 /\ act = [op |-> "init", a |-> <<>>]) /\ [][NextBuild]_<<vars, step, act>>
+
 SpecSim == (Init /\ step = 0 /\ act = [op |-> "init", a |-> <<>>]) /\ [][NextSim]_<<vars, step, act>>
 
 CfgConfSim == {[t |-> "list", v |-> <<"p">>], [t |-> "list", v |-> <<"q", "s">>],
                [t |-> "list", v |-> <<>>], [t |-> "bad", v |-> <<>>]}
+CfgConfBuild == {[t |-> "list", v |-> <<"p">>], [t |-> "list", v |-> <<"q", "s">>],
+                 [t |-> "list", v |-> <<"p", "q">>], [t |-> "list", v |-> <<"s">>]}
+CfgSysPhBuild == {<<>>, <<Ph("p"), Ph("q")>>, <<Ph("s"), Ph("p"), Ph("q")>>}
 CfgSysPhSim == {<<>>, <<Ph("p"), Ph("q")>>, <<Ph("s"), Ph("p"), Ph("q")>>, <<Ph("p")>>,
                 <<Ph("N/A"), Ph("p")>>}
 =============================================================================
